@@ -4,7 +4,7 @@ from findcheck import run_find_property
 
 
 def main(tier, seed, replay=None):
-    n = 120 if tier == "quick" else 720
+    n = 170 if tier == "quick" else 720
     return run_find_property(
         "C02", tier, seed, replay, ["theories/Properties/C02.v"], ["mixed", "corners", "antiparallel", "decoys", "stretched", "shuffled"], n,
         rule="same generator as C01 with the planted ground truth attached: copies are farther apart than the pattern diameter + 2 atol "
